@@ -283,3 +283,92 @@ Section Semantics.
 End Semantics.
 
 Arguments refines H {A} c.
+
+(* ================= hint overrides =================
+   The correspondence harness re-runs plonky2's witness generation with the outputs of selected
+   generators replaced (EqualityGenerator#i -> (equal, inv); LowHighGenerator#i -> (low, high);
+   BaseSplitGenerator#i -> the limbs of the i-th split_le), every other generator running honestly *on
+   the possibly deviated values*, and then evaluates all constraints.  [ovr] is the model of exactly
+   that: [chk] with a hint supplier that answers from the override table, else with the honest
+   generator's value.  Every constraint is evaluated, also on honest hints (the honest inverse is
+   computed by Fermat exponentiation), so [ovr_sound] holds generically. *)
+Definition finv (d : Z) : Z := Zpow_facts.Zpow_mod d (p - 2) p.
+
+Fixpoint ovr_find (o : list (Z * list Z)) (i : nat) : option (list Z) :=
+  match o with
+  | [] => None
+  | (k, v) :: r => if k =? Z.of_nat i then Some v else ovr_find r i
+  end.
+
+Record overrides := mkOvr { o_eq : list (Z * list Z); o_lh : list (Z * list Z); o_sp : list (Z * list Z) }.
+
+Section Ovr.
+  Variable H : list Z -> list Z.
+  Variable o : overrides.
+
+  Fixpoint ovr {A} (c : Circ A) (ne nl ns : nat) : option A :=
+    match c with
+    | Ret a => Some a
+    | Assert x y k => if x =? y then ovr k ne nl ns else None
+    | Hash l k => ovr (k (H l)) ne nl ns
+    | IsEq x y k =>
+        let hint := match ovr_find (o_eq o) ne with
+                    | Some [e; inv] => (e, inv)
+                    | _ => (if x =? y then 1 else 0, finv (fsub x y))
+                    end in
+        let '(e, inv) := hint in
+        if is_canon e && is_canon inv && (fmul e (fsub x y) =? 0)
+           && (fsub (fmul (fsub x y) inv) (fsub 1 e) =? 0)
+        then ovr (k e) (S ne) nl ns else None
+    | Split x n k =>
+        match n with
+        | O => ovr (k []) ne nl ns
+        | _ =>
+          let bits := match ovr_find (o_sp o) ns with
+                      | Some bs => bs
+                      | None => bits_of x n
+                      end in
+          if (length bits =? n)%nat && forallb is_bit bits && ((bsum bits) mod p =? x)
+          then ovr (k bits) ne nl (S ns) else None
+        end
+    | Free2 h1 h2 k =>
+        let hint := match ovr_find (o_lh o) nl with
+                    | Some [a; b] => (a, b)
+                    | _ => (h1, h2)
+                    end in
+        let '(a, b) := hint in
+        if is_canon a && is_canon b then ovr (k a b) ne (S nl) ns else None
+    end.
+
+  Lemma ovr_sound {A} (c : Circ A) : forall ne nl ns a, ovr c ne nl ns = Some a -> rel H c (fun a' => a' = a).
+  Proof.
+    induction c as [a0|x y k IH|l k IH|x y k IH|x n k IH|h1 h2 k IH]; cbn [ovr rel]; intros ne nl ns a E.
+    - inversion E; reflexivity.
+    - destruct (Z.eqb_spec x y) as [Exy|]; [|discriminate]. split; [exact Exy|eapply IH; eassumption].
+    - eapply IH; eassumption.
+    - destruct (match ovr_find (o_eq o) ne with
+                | Some [e; inv] => (e, inv)
+                | _ => (if x =? y then 1 else 0, finv (fsub x y))
+                end) as [e inv].
+      destruct (is_canon e && is_canon inv && (fmul e (fsub x y) =? 0)
+                && (fsub (fmul (fsub x y) inv) (fsub 1 e) =? 0)) eqn:G; [|discriminate].
+      do 3 (apply andb_true_iff in G; destruct G as [G ?]).
+      exists e, inv. split; [apply is_canon_spec; assumption|]. split; [apply is_canon_spec; assumption|].
+      split; [apply Z.eqb_eq; assumption|]. split; [apply Z.eqb_eq; assumption|]. eapply IH; eassumption.
+    - destruct n as [|n]; [eapply IH; eassumption|].
+      set (bits := match ovr_find (o_sp o) ns with Some bs => bs | None => bits_of x (S n) end) in *.
+      destruct ((length bits =? S n)%nat && forallb is_bit bits && (bsum bits mod p =? x)) eqn:G; [|discriminate].
+      do 2 (apply andb_true_iff in G; destruct G as [G ?]).
+      exists bits. split; [apply Nat.eqb_eq; exact G|]. split.
+      { apply Forall_forall. intros b Hb. apply is_bit_spec.
+        match goal with Hf : forallb is_bit bits = true |- _ => rewrite forallb_forall in Hf; auto end. }
+      split; [apply Z.eqb_eq; assumption|]. eapply IH; eassumption.
+    - destruct (match ovr_find (o_lh o) nl with
+                | Some [a; b] => (a, b)
+                | _ => (h1, h2)
+                end) as [a0 b0].
+      destruct (is_canon a0 && is_canon b0) eqn:G; [|discriminate].
+      apply andb_true_iff in G. destruct G as [G1 G2].
+      exists a0, b0. split; [apply is_canon_spec; assumption|]. split; [apply is_canon_spec; assumption|]. eapply IH; eassumption.
+  Qed.
+End Ovr.
